@@ -25,7 +25,7 @@ for id in "${ids[@]}"; do
   tests=$(grep -o '^func Test[A-Za-z0-9_]*' "$demo" | awk '{print $2}' | paste -sd'|')
   tagarg=""; [ -n "$tags" ] && tagarg="-tags $tags"
   go test -count=1 $tagarg -run "^($tests)\$" ./$dest >/tmp/reconfirm.with 2>&1; with=$?
-  git checkout -q -- . 
+  git checkout -q -- . ; git clean -fdq -e zz_demo_test.go
   go test -count=1 $tagarg -run "^($tests)\$" ./$dest >/tmp/reconfirm.without 2>&1; without=$?
   rm -f "$dest/zz_demo_test.go"
   if [ $with -ne 0 ] && [ $without -eq 0 ]; then echo "$id CONFIRMED"; else echo "$id NOT-CONFIRMED (with rc=$with, without rc=$without)"; fi
